@@ -150,6 +150,7 @@ def check(ctx):
     ctx.attempt(forward.check_all, module_suffixes=('trs.trs', 'tract.tract'))
     ctx.attempt(error_undef_tables)
     ctx.attempt(lowered_before_unpack)
+    ctx.attempt(canonical_case_and_none)
     ctx.attempt(common.test_then_shrink, [f for f in ctx.repo.funcs.values() if f.module.name.endswith(('trs.trs', 'unpack.unpackers', 'config.config'))])
     ctx.attempt(common.embedded_case_consistency, modules=('trs.trs',))
     ctx.attempt(common.clause_purity, [f for f in ctx.repo.funcs.values() if f.module.name.endswith(('trs.trs',))])
@@ -554,3 +555,74 @@ def lowered_before_unpack(ctx, rule='DEFUSE'):
                            f"recognises - North sorts as South, the standard form is not unique",
                 key=f"{rule}|TRS.trs_to_dict|not-lowered", where=common.loc(fi, c),
                 why='groups are lower-cased after the match')
+
+
+def canonical_case_and_none(ctx, rule='DEFUSE'):
+    """(a) construct_trs writes the direction it appends to a bare number in
+    lower case - the validation that follows accepts both cases, so an
+    upper-case default ('S' from a keyword or MasterConfig) would otherwise
+    survive into the "standard" string.  (b) on the way into the `.trs`
+    setter / trs_to_dict a value is not passed through str() before the
+    '' / None test: str(None) is 'None', an error TRS instead of the
+    undefined one."""
+    from ..srcmodel import facts_at
+    ct = ctx.repo.func('TRS.construct_trs')
+    n = 0
+    for a in ast.walk(ct.node):
+        if isinstance(a, ast.Assign) and isinstance(a.targets[0], ast.Name) and a.targets[0].id in ('twp', 'rge') \
+                and isinstance(a.value, ast.JoinedStr):
+            parts = [v for v in a.value.values if isinstance(v, ast.FormattedValue)]
+            if len(parts) != 2:
+                continue
+            d = parts[1].value
+            n += 1
+            lowered = any(isinstance(x, ast.Call) and isinstance(x.func, ast.Attribute) and x.func.attr in ('lower', 'casefold')
+                          for x in ast.walk(d))
+            if not lowered and isinstance(d, ast.Name):
+                # every definition of the direction variable must be lower-cased (or come out of
+                # the component's own text, which the validation below constrains)
+                def _low(e):
+                    return any(isinstance(x, ast.Call) and isinstance(x.func, ast.Attribute) and x.func.attr in ('lower', 'casefold')
+                               for x in ast.walk(e))
+                defs = []
+                for y in ast.walk(ct.node):
+                    if isinstance(y, ast.Assign):
+                        for t in y.targets:
+                            if isinstance(t, ast.Name) and t.id == d.id:
+                                defs.append(y.value)
+                            elif isinstance(t, ast.Tuple) and any(isinstance(e_, ast.Name) and e_.id == d.id for e_ in t.elts):
+                                defs.append(y.value)
+                raw = []
+                for v in defs:
+                    if isinstance(v, ast.Name) and v.id in ct.params():
+                        # the parameter itself lower-cased somewhere before?
+                        if not any(isinstance(y, ast.Assign) and norm(y.targets[0]) == v.id and _low(y.value) for y in ast.walk(ct.node)):
+                            raw.append(v.id)
+                lowered = bool(defs) and not raw
+            ctx.check(lowered, rule, f"construct_trs: the direction appended to a bare {a.targets[0].id} number is lower-cased",
+                      detail_bad=f"`{norm(a)}` appends the default direction as given: with default_ns='S' (keyword or MasterConfig) "
+                                 f"construct_trs returns '154S97E01', which passes the (case-tolerant) validation - the standard "
+                                 f"form is no longer unique and not a fixed point of TRS()",
+                      key=f"{rule}|construct_trs|direction-case|{a.targets[0].id}", where=common.loc(ct, a))
+    if n == 0:
+        ctx.undecided(rule, 'construct_trs: the appended direction is lower-cased', 'f"{number}{direction}" not found')
+    cls = ctx.repo.cls('trs.trs:TRS')
+    for fn in [st for st in cls.node.body if isinstance(st, ast.FunctionDef) and st.name == 'trs'
+               and any('setter' in norm(d_) for d_ in st.decorator_list)] + [ctx.repo.func('TRS.trs_to_dict').node]:
+        params = [x.arg for x in fn.args.args if x.arg not in ('self', 'cls')]
+        for a in ast.walk(fn):
+            if isinstance(a, ast.Assign) and isinstance(a.targets[0], ast.Name) and a.targets[0].id in params \
+                    and isinstance(a.value, ast.Call) and dotted(a.value.func) == 'str' \
+                    and a.value.args and norm(a.value.args[0]) == a.targets[0].id:
+                p_ = a.targets[0].id
+                facts = [(t, pol) for _e, t, pol in facts_at(a)]
+                safe = any((t == f"{p_} is None" and not pol) or (t.startswith(f"{p_} in ") and not pol) for t, pol in facts)
+                # a '' / None test on the same name EARLIER in the function also makes it safe
+                earlier = any(isinstance(c, ast.Compare) and c.lineno < a.lineno and norm(c.left) == p_
+                              and any(isinstance(x, ast.Constant) and x.value is None for cmp_ in c.comparators for x in ast.walk(cmp_))
+                              for c in ast.walk(fn))
+                ctx.check(safe or earlier, rule, f"TRS.{fn.name}: `{norm(a)}` does not turn None into 'None'",
+                          detail_bad=f"`{norm(a)}` runs before the '' / None test: `t.trs = None` (and trs_to_dict(None) behind it) "
+                                     f"now sees the string 'None' - the error TRS instead of the undefined one, although TRS(None) "
+                                     f"and TRS('') still mean undefined", key=f"{rule}|TRS.{fn.name}|str-none",
+                          where=f"{cls.module.relpath}:{a.lineno}")
